@@ -70,6 +70,13 @@ func c12Specs(c *run.Ctx) (media, frames []built) {
 			frames = append(frames, build(spec.Spec{Name: fmt.Sprintf("c12-sb-admitmode%d-set%d", mode, si), Base: "new", Calls: append(c12BaseCallsMode(mode), C{Op: "RequireSandboxOnIFrame", Ints: set})}))
 		}
 	}
+	// a zero-value Policy{} on which the forcing options are set before the first call that initialises the tables
+	for admit := 0; admit < 2; admit++ {
+		calls := append([]C{opt("RequireCrossOriginAnonymous", true), {Op: "RequireSandboxOnIFrame", Ints: []int{2, 10}}}, c12BaseCalls(admit == 1)...)
+		b := build(spec.Spec{Name: fmt.Sprintf("c12-literal-options-first-admit%d", admit), Base: "literal", Calls: calls})
+		media = append(media, b)
+		frames = append(frames, b)
+	}
 	// both forcing options together, alone and next to link options (which run between them on the same attribute list;
 	// relative URLs allowed so that href=x / src=x survive URL checking)
 	for admit := 0; admit < 2; admit++ {
